@@ -1209,6 +1209,20 @@ impl InterfaceInner {
         let mut ip_repr = packet.ip_repr();
         assert!(!ip_repr.dst_addr().is_unspecified());
 
+        // The loopback address must never appear as the source of a packet that leaves the
+        // node (RFC 4291 §2.5.3, RFC 1122 §3.2.1.3). It is what source address selection
+        // falls back to when the interface has no address of that family: drop the packet.
+        let is_loopback = |addr: IpAddress| match addr {
+            #[cfg(feature = "proto-ipv4")]
+            IpAddress::Ipv4(addr) => addr.is_loopback(),
+            #[cfg(feature = "proto-ipv6")]
+            IpAddress::Ipv6(addr) => addr.is_loopback(),
+        };
+        if is_loopback(ip_repr.src_addr()) && !is_loopback(ip_repr.dst_addr()) {
+            net_debug!("no usable source address, dropping packet");
+            return Ok(());
+        }
+
         // Dispatch IEEE802.15.4:
 
         #[cfg(feature = "medium-ieee802154")]
